@@ -78,6 +78,8 @@ def record(rng, ncfg, nstr):
     cfgs, cases = [], []
     for ci in range(ncfg):
         k = rng.randint(5, 12)
+        if ci % 20 == 7:
+            k = rng.choice([257, 300])           # windows longer than a byte counter
         run = rng.choice([0, 1, 2, 3, 4, k - 1, k, k + 1])
         den = rng.choice([10, 20, 4, 5, 2])
         lo = rng.randint(0, den)
@@ -86,6 +88,8 @@ def record(rng, ncfg, nstr):
             lo, hi = hi, lo
         gc = [] if rng.random() < 0.2 else [lo, hi, den]
         ms = rng.sample(LIT_MOTIFS, rng.choice([0, 1, 2, 3]))
+        if k >= 100:             # a lower GC bound makes a GC-rich window with more than 255 G/C legal
+            gc, ms, run = [den // 2, den, den], [], rng.choice([0, 3])
         motifs = [impl.undna(m) for m in ms]
         if not float_guard(k, gc):
             continue
@@ -101,13 +105,17 @@ def record(rng, ncfg, nstr):
         if f is None:
             cases.append({"cfg": idx, "ctor": ctor, "s": [], "whole": False, "last": False})
             continue
-        for j in range(nstr):
+        for j in range(nstr if k < 100 else 6):
             L = rng.choice([0, 1, k - 1, k, k + 1, 2 * k, 50, rng.randint(0, 200)])
             mode = j % 4
+            if k >= 100:
+                L, mode = rng.choice([k, k + 40, 2 * k]), 1
             if mode == 0:
                 s = [rng.randrange(4) for _ in range(L)]
-            elif mode == 1:      # GC-balanced alternation, likely valid
+            elif mode == 1:      # GC-balanced alternation, likely valid (GC-heavy without runs for the very long windows)
                 s = [rng.choice([0, 3]) if i % 2 else rng.choice([1, 2]) for i in range(L)]
+                if k >= 100:
+                    s = [(1 if i % 2 else 2) if i % 10 else 0 for i in range(L)]
             elif mode == 2:      # plant a motif or its reverse complement
                 s = [rng.choice([0, 3]) if i % 2 else rng.choice([1, 2]) for i in range(L)]
                 if ms and L >= 8:
